@@ -419,6 +419,8 @@ func main() {
 			rej, errs := evalA(c, hA, hB)
 			fmt.Printf("case %+v list %s: rejected=%v (%s) must-reject=%v\n", c, listName(c.List), rej, errs, refFrozen(c))
 			judgeA(r, c, rej, errs)
+		case "sequence":
+			runSequences(r, hA, hB, &evid.Distinct{})
 		case "config":
 			var c caseB
 			json.Unmarshal(a.Case, &c)
@@ -493,6 +495,10 @@ func main() {
 		}
 	})
 
+	// ---- (a-seq) call sequences on one shared list
+	seqClasses := &evid.Distinct{}
+	seqEvals := runSequences(r, hA, hB, seqClasses)
+
 	// ---- (b) + (c)
 	cb := casesB()
 	var jobs []string
@@ -552,9 +558,11 @@ func main() {
 		"an entry whose address did not resolve (nil program hash) names no address; a coinbase is outside the statement (\"non-coinbase\") and never takes the ContextCheck path: the helper's verdict on a coinbase is recorded, not judged",
 		"SetupConfig is driven with withScrew=false")
 	r.Finish(evid.Coverage{
-		"evaluations":         evalsA + int64(nCfg) + int64(ctxN),
-		"distinct_nontrivial": classes.Len() + cfgClasses.Len() + ctxClasses.Len(),
+		"evaluations":         evalsA + seqEvals + int64(nCfg) + int64(ctxN),
+		"distinct_nontrivial": classes.Len() + seqClasses.Len() + cfgClasses.Len() + ctxClasses.Len(),
+		"sequence_verdicts":   seqEvals,
 		"rule": "(a) every constructible transaction type x 1..3 inputs x 1..3 outputs x frozen address (A or B) at every input position / output position / both / none x heights {0,S-1,S,S+1,S+2,MaxUint32} x every frozen list of 0..2 entries over {A@S, A@S+1, B@S+1, unresolved@0}: real helper verdict == (some resolved entry of that address has started and the transaction spends from or pays to it); " +
+			"(a-seq) 6 two-entry lists (both listing orders of the start heights) x every sequence of up to 3 validations at heights {below both, between, above both} on ONE shared slice x 5 probe transactions: every verdict == stateless reference and the slice is unchanged after every call; " +
 			"(b) SetupConfig on a config file for 12 ActiveNet spellings x 8 FrozenAddresses overrides (+ InstantBlock branch): mainnet names -> exactly the coordinated entry, program hash resolved, and the real helper refuses spends/payments at S and later but not before; " +
 			"(c) complete ContextCheck on a light node: signed, otherwise valid TransferAsset spending from / paying to a frozen harness-owned address and paying to the coordinated address, heights S-1,S,S+1. " +
 			"non-trivial = distinct (placement, address, height offset, list, verdict) classes for TransferAsset + distinct resulting configurations + distinct context classes",
